@@ -443,7 +443,18 @@ namespace Pistache::Http::Experimental
             // handleTimeout() may hand the connection to a queued request,
             // which registers its own time-out and takes timeoutsLock again
             if (connection)
+            {
+                // The response to the request that timed out may still
+                // arrive: on this connection it would be taken for the
+                // response to the next request. Give the connection up;
+                // whoever uses it next connects again.
+                if (connection->isConnected())
+                {
+                    connections.erase(connection->fd());
+                    connection->close();
+                }
                 connection->handleTimeout();
+            }
         }
     }
 
@@ -715,6 +726,7 @@ namespace Pistache::Http::Experimental
             requestEntry->reject(std::runtime_error("Timeout"));
 
             requestEntry.reset(nullptr);
+            parser.reset();
 
             if (onDone)
                 onDone();
@@ -1105,6 +1117,7 @@ namespace Pistache::Http::Experimental
         {
             std::shared_ptr<Connection> conn;
             std::shared_ptr<Connection::RequestData> data;
+            std::string domain;
             {
                 Guard guard(queuesLock);
 
@@ -1118,7 +1131,10 @@ namespace Pistache::Http::Experimental
                         continue;
 
                     if (queues.second.dequeue(data))
+                    {
+                        domain = queues.first;
                         break;
+                    }
 
                     pool.releaseConnection(conn);
                     conn = nullptr;
@@ -1126,6 +1142,25 @@ namespace Pistache::Http::Experimental
             }
             if (!conn)
                 return;
+
+            if (!conn->isConnected())
+            {
+                // The connection was closed meanwhile (by the server, or given
+                // up after a time-out): connect again, as doRequest() does
+                std::weak_ptr<Connection> weakConn = conn;
+                conn->asyncPerform(data->request, [this, weakConn]() {
+                        auto conn = weakConn.lock();
+                        if (conn)
+                        {
+                            pool.releaseConnection(conn);
+                            processRequestQueue();
+                        }
+                    })
+                    .then([data](Response response) { data->resolve(std::move(response)); },
+                          [data](std::exception_ptr exc) { data->reject(exc); });
+                conn->connect(helpers::httpAddr(domain));
+                continue;
+            }
 
             // Not under queuesLock: when the request can not be sent,
             // performImpl() runs onDone at once, which comes back here
